@@ -616,6 +616,11 @@ func (fc *funcContext) translateBranchingStmt(caseClauses []*ast.CaseClause, def
 
 	condStrs := make([]string, len(caseClauses))
 	for i, clause := range caseClauses {
+		if flatten && clause.Pos().IsValid() {
+			// In the flattened form all conditions are evaluated ahead of the branches: the code of each one
+			// (and of the blocking calls hoisted out of it) belongs to its own clause.
+			fc.SetPos(clause.Pos())
+		}
 		conds := make([]string, len(clause.List))
 		for j, cond := range clause.List {
 			conds[j] = translateCond(cond).String()
